@@ -266,8 +266,31 @@ def case_kfl(**p):
   tra = Traced(lambda: (layer.assert_constraints(eps=2.0 ** -14), tf.constant(0.0))[1], [], name='KFL.assert_constraints')
   tra.sym_run(var_values={layer.kernel.ref(): K, layer.scale.ref(): S0})
   passes, _ = c12._passes(tra)
+  def _with_kernel(m):
+    # the initial kernel the model's random draws produce is assigned to the real layer, which is then asked directly
+    layer.kernel.assign(core.model_np(m, K).astype(np.float32).reshape(layer.kernel.shape))
+
+  def _assert_replay(m):
+    _with_kernel(m)
+    try:
+      layer.assert_constraints(eps=2.0 ** -14)
+      return dict(reproduced=False, detail='assert_constraints passes on the reconstructed initial kernel')
+    except Exception as e:  # pylint: disable=broad-except
+      return dict(reproduced=True, detail='%s: %s' % (type(e).__name__, str(e)[:200]))
+
+  def _fn_replay(m, what):
+    _with_kernel(m)
+    xn = core.model_np(m, x).astype(np.float32)
+    on = np.asarray(layer(tf.constant(xn)), dtype=np.float64).reshape(2, -1)
+    if what == 'mono':
+      gap = float(np.max(on[0] - on[1]))
+      return dict(reproduced=bool(gap > 1e-5), detail=dict(decrease=gap, x=xn.tolist()))
+    lo = -np.inf if p.get('omin') is None else p['omin']
+    hi = np.inf if p.get('omax') is None else p['omax']
+    exc = float(max(np.max(lo - on[0]), np.max(on[0] - hi)))
+    return dict(reproduced=bool(exc > 1e-5), detail=dict(excess=exc, x=xn.tolist()))
   case.solve('initial-weights-pass-assert_constraints', z3.Not(passes), witness={}, timeout=60, sig=dict(query='assert'),
-             replay=None, required=True)
+             inline_replay=_assert_replay, required=True)
   # function level: monotone and within bounds with the initial kernel (symbolic samples), scale and bias
   trc = Traced(lambda x: layer(x), [tf.TensorSpec(xshape, tf.float32)], name='KFL.call')
   x = sym.symbolic('x', tuple(xshape))
@@ -281,7 +304,8 @@ def case_kfl(**p):
       for dd in range(dims):
         rel.append(X[0, u, dd] <= X[1, u, dd] if dd == d0 else X[0, u, dd] == X[1, u, dd])
     case.solve('initial-function-monotone[dim=%d]' % d0, core.any_of([sym.s_cmp('gt', o[0, u], o[1, u]) for u in range(o.shape[1])]),
-               assumptions=rel, witness=dict(x=x), timeout=p.get('timeout', 90), sig=dict(query='kfl-mono'), replay=None,
+               assumptions=rel, witness=dict(x=x), timeout=p.get('timeout', 90), sig=dict(query='kfl-mono'),
+               inline_replay=lambda m: _fn_replay(m, 'mono'),
                required=p.get('required', True))
   bad = []
   for u in range(o.shape[1]):
@@ -291,7 +315,7 @@ def case_kfl(**p):
       bad.append(sym.s_cmp('gt', o[0, u], Fraction(p['omax'])))
   if bad:
     case.solve('initial-function-within-bounds', core.any_of(bad), witness=dict(x=x), timeout=p.get('timeout', 90),
-               sig=dict(query='kfl-bounds'), replay=None, required=p.get('required', True))
+               sig=dict(query='kfl-bounds'), inline_replay=lambda m: _fn_replay(m, 'bounds'), required=p.get('required', True))
   return case
 
 
@@ -310,7 +334,14 @@ def case_categorical(**p):
   bad = []
   for v in K.reshape(-1):
     bad += [sym.s_cmp('lt', v, Fraction(p['omin'])), sym.s_cmp('gt', v, Fraction(p['omax']))]
-  case.solve('initial-values-within-bounds', core.any_of(bad), witness={}, timeout=30, sig=dict(query='cat-init'), replay=None)
+  def _draws(m):
+    # the solver's witness is a vector of uniform draws; on the real code the initializer is drawn 200 times instead
+    worst = 0.0
+    for i in range(200):
+      k = np.asarray(init(shape=[p['n'], p['units']], dtype=tf.float32), dtype=np.float64)
+      worst = max(worst, float(np.max(p['omin'] - k)), float(np.max(k - p['omax'])))
+    return dict(reproduced=bool(worst > 1e-6), weak=True, detail=dict(worst_excess_over_200_draws=worst))
+  case.solve('initial-values-within-bounds', core.any_of(bad), witness={}, timeout=30, sig=dict(query='cat-init'), inline_replay=_draws)
   return case
 
 
